@@ -71,6 +71,39 @@ def gen_case(rng, k, tier):
     s1, s2 = hg.body_pair(rng, mode, fine=(tier != "quick" and rng.random() < 0.2))
     c = dict(b1=s1, b2=s2, g=hg.rigid_motion(rng, 1.0, lattice=(k % 16 == 3)), mode=mode, cls=mode, broad=(k % 2 == 0),
              max_rows=400, details_k=5 if tier == "quick" else 16)
+    if k % 8 == 6:
+        # body 2 strongly elongated along its own x axis (sweep-type broad phases depend on the axis)
+        a = hg.logu(rng, 0.1, 2.0)
+        s2 = dict(shape="box", params=dict(size=[a * rng.uniform(3.0, 6.0), a * rng.uniform(0.3, 0.6), a * rng.uniform(0.4, 0.8)]),
+                  pose=s2["pose"], E=s2["E"])
+        ctr = [s2["pose"][i][3] + 0.3 * a * rng.uniform(-1, 1) for i in range(3)]
+        s1 = dict(s1, pose=hg.pose([r[:3] for r in s1["pose"][:3]], ctr))
+        c.update(b1=s1, b2=s2, cls="elongated", broad=True)
+    if k % 2 == 1:
+        # a call history on the same objects: three bodies, roles / frames change, in-place pose updates, cache reads
+        s3, _ = hg.body_pair(rng, "random")
+        ctr = [0.5 * (s1["pose"][i][3] + s2["pose"][i][3]) + 0.3 * hg.body_size(s1) * rng.uniform(-1, 1) for i in range(3)]
+        s3["pose"] = hg.pose(hg.rand_rot(rng), ctr)
+        steps = []
+        # always: b2 second, then b2 first against b3 (re-expressed), then b2 second again; tree mode twice around a frame change
+        fixed = [((0, 1), "cf"), ((1, 2), "brute"), ((0, 1), "tree"), ((0, 2), "tree"), ((0, 1), "tree"), ((1, 0), "cf")]
+        for n_step, item in enumerate(fixed + [None, None]):
+            pr, mode = item if item is not None else (None, None)
+            if pr is None:
+                i3 = rng.randrange(3)
+                j3 = rng.choice([x for x in range(3) if x != i3])
+                pr, mode = (i3, j3), rng.choice(["cf", "brute", "tree"])
+            st = dict(pair=list(pr), mode=mode, read=[x for x in range(3) if rng.random() < 0.5])
+            if n_step > 0 and rng.random() < 0.5:
+                sc = 0.15 * hg.body_size(s1)
+                if rng.random() < 0.3:
+                    # rotate about the origin of the frame the body is expressed in (right multiplication)
+                    q = [1.0] + [0.2 * rng.uniform(-1, 1) for _ in range(3)]
+                    st["move"] = [rng.randrange(3), hg.pose(hg.rot_from_quat(q), [0.0, 0.0, 0.0]), "right"]
+                else:
+                    st["move"] = [rng.randrange(3), hg.pose(hg.IDENT, [sc * rng.uniform(-1, 1) for _ in range(3)]), "left"]
+            steps.append(st)
+        c["history"] = dict(specs=[s1, s2, s3], steps=steps)
     if k % 4 == 1:
         # a third body near body 1 for interleaved calls
         s3, _ = hg.body_pair(rng, "random")
@@ -192,6 +225,44 @@ def judge(R, c, r, stats):
     return True
 
 
+def judge_history(R, c, r, stats):
+    """the call history on the same objects against the cache-free snapshots"""
+    h = r.get("history") if r and "exc" not in r else None
+    if not h:
+        return
+    stats["history_steps"] = stats.get("history_steps", 0) + len(h)
+    Ls = max(hg.body_size(sp) for sp in c["history"]["specs"])
+    for k, (st, o) in enumerate(zip(c["history"]["steps"], h)):
+        e, g = o["exp"], o["got"]
+        fm = max(norm(e["w12"][:3]), norm(g["w12"][:3]))
+        where = f"history step {k} ({st['mode']}, bodies {st['pair']}, in-place move {'yes' if st.get('move') else 'no'})"
+        if e["inter"] != g["inter"] and fm > 0:
+            R.failure(f"{where}: intersection flag {g['inter']} on the live objects, {e['inter']} on cache-free copies of their state", c,
+                      site="contact_forces (call history)")
+            return
+        if e["pairs"] is not None and e["pairs"] != g["pairs"]:
+            only_g = [p for p in g["pairs"] if p not in e["pairs"]][:4]
+            only_e = [p for p in e["pairs"] if p not in g["pairs"]][:4]
+            R.failure(f"{where}: intersecting tetrahedron pairs differ from those of cache-free copies of the same state: "
+                      f"only live {only_g} only copies {only_e}", c, site="find_contact_surface (call history)")
+            return
+        if fm > 0:
+            df = max(dev(e["w12"][:3], g["w12"][:3]), dev(e["w21"][:3], g["w21"][:3])) / fm
+            dtq = max(dev(e["w12"][3:], g["w12"][3:]), dev(e["w21"][3:], g["w21"][3:])) / (fm * (Ls + 1e-300))
+            stats["worst"]["history"] = max(stats["worst"].get("history", 0.0), df, dtq)
+            if max(df, dtq) > TOL:
+                R.failure(f"{where}: wrenches on the live objects deviate by {max(df, dtq):.3g} (> 5 %) from those of cache-free copies "
+                          f"of the same state", c, site="contact_forces (call history)")
+                return
+            if max(df, dtq) > 1e-9:
+                R.corr_broken.append(f"{where}: live objects and cache-free copies differ by {max(df, dtq):.3g}")
+        for key in ("caches_i", "caches_j"):
+            if not all(o[key].values()):
+                R.corr_broken.append(f"{where}: stale cached property afterwards: {o[key]}")
+                R.notes.append(dict(stale_cache=o[key], step=k, case_hash=cm.canon_hash(c)))
+                return
+
+
 def correspondence(R, c, r, stats):
     """model / bookkeeping checks that need no tolerance of the property"""
     d = []
@@ -297,6 +368,7 @@ def run(tier, seed, replay=None):
         hist[c.get("mode", "?")] = hist.get(c.get("mode", "?"), 0) + 1
         if judge(R, c, r, stats):
             distinct.add(cm.canon_hash(c))
+        judge_history(R, c, r, stats)
         for d in correspondence(R, c, r, stats):
             if len(R.corr_broken) < 6:
                 R.corr_broken.append(d)
